@@ -80,6 +80,10 @@ type rxRunner struct {
 	k int
 	// > 0: the next NextPackageUntil run gets the response in two instalments (see runUntil)
 	lazy int
+	// the row format delivered last, and whether the next run installs it with SetLastPkgRx before
+	// the response arrives (a cursor fetch: rows whose format came with an earlier response)
+	lastRowFmt tds.Package
+	useRowFmt  bool
 }
 
 func pkgsDesc(ps []wPkg) []map[string]interface{} {
@@ -154,6 +158,9 @@ func (r *rxRunner) recv(pkg tds.Package) {
 	fin := false
 	if d, ok := pkg.(*tds.DonePackage); ok && d.Status == tds.TDS_DONE_FINAL {
 		fin = true
+	}
+	if _, ok := pkg.(*tds.RowFmtPackage); ok {
+		r.lastRowFmt = pkg
 	}
 	r.tr.Emit(Ev{"ev": "Recv", "kind": k, "val": dumpHash(pkg), "final": fin})
 }
@@ -259,6 +266,9 @@ func (r *rxRunner) runDirect(id int, resp []byte, cuts []int, mode string, fresh
 	r.tr.Emit(Ev{"ev": "Run", "resp": id, "mode": mode, "fresh": fresh, "via": "direct"})
 	if fresh || eedHooks+envHooks > 0 {
 		r.addHooks(eedHooks, envHooks)
+	}
+	if r.useRowFmt && r.lastRowFmt != nil {
+		r.ch.SetLastPkgRx(r.lastRowFmt)
 	}
 	r.sendDirect(resp, cuts)
 	r.drain()
@@ -1130,6 +1140,7 @@ func rxMain(args []string) error {
 		tr.Reset(map[string]interface{}{"driver": "rounds", "seed": *seed, "i": i})
 		nr := 2 + rng.Intn(3)
 		var resps [][]wPkg
+		var fetch []bool
 		for k := 0; k < nr; k++ {
 			pack := 0
 			if rng.Intn(4) == 0 {
@@ -1139,9 +1150,30 @@ func rxMain(args []string) error {
 			if k > 0 && rng.Intn(5) == 0 {
 				ps = quietResponse(rng)
 			}
+			isFetch := false
+			if k > 0 && rng.Intn(3) == 0 {
+				// a cursor fetch: only rows, in the format the previous response announced last
+				// (the client installs it with SetLastPkgRx)
+				prev := resps[k-1]
+				for j := len(prev) - 1; j >= 0; j-- {
+					if (prev[j].Kind == "ROWFMT" || prev[j].Kind == "ROWFMT2") && len(prev[j].Cols) > 0 {
+						ps = nil
+						for n := 1 + rng.Intn(3); n > 0; n-- {
+							ps = append(ps, encData(rng, tokRow, prev[j].Cols, 10))
+						}
+						ps = append(ps, encDone(tokDone, pick(rng, 0, 0, 0x10), 0, int32(len(ps))))
+						isFetch = true
+						break
+					}
+				}
+			}
+			fetch = append(fetch, isFetch)
 			resps = append(resps, ps)
 			r.resp(k+1, ps)
-			if err := r.runDirect(k+1, respBytes(ps), nil, "ref", true, 1, 1); err != nil {
+			r.useRowFmt = isFetch
+			err := r.runDirect(k+1, respBytes(ps), nil, "ref", true, 1, 1)
+			r.useRowFmt = false
+			if err != nil {
 				return err
 			}
 		}
@@ -1157,7 +1189,10 @@ func rxMain(args []string) error {
 			} else if rng.Intn(3) == 0 {
 				eh, vh = 1, rng.Intn(2) // hooks registered between responses
 			}
-			if err := r.runDirect(k+1, resp, cs, "frag", k == 0, eh, vh); err != nil {
+			r.useRowFmt = fetch[k]
+			err := r.runDirect(k+1, resp, cs, "frag", k == 0, eh, vh)
+			r.useRowFmt = false
+			if err != nil {
 				return err
 			}
 		}
